@@ -96,6 +96,18 @@ def twin_check(q, m0, spec, case, gen, variant):
             K = twin.weight[0].numel()
         tol = ((K + 2) * max(u, 2.0 ** -24) + 5 * u) * absref + 1e-30
         r["out_cls"] = type(y).__name__
+        if act is None and kind != "ln" and not isinstance(x_given, QBytesTensor):
+            # the FROZEN module (weights-only inference), on the same input and on a large-magnitude one (un-normalised data): still the twin
+            qf = copy.deepcopy(q)
+            qf.freeze()
+            for tag_, xx in (("frozen", x_given), ("frozen_big", x_given * 200)):
+                yb = qf(xx)
+                yb_ref = twin(xx).double()
+                absb = tw2.double()(xx.abs().double())
+                if bool(torch.isfinite(yb_ref).all()) and float(absb.max()) < 0.25 * float(torch.finfo(dtype).max):
+                    tolb = ((K + 2) * max(u, 2.0 ** -24) + 5 * u) * absb + 1e-30
+                    rat = (deq(yb).double() - yb_ref).abs() / tolb
+                    r[tag_ + "_ratio"] = float(torch.nan_to_num(rat, nan=float("inf")).max())
         if act is None:
             if isinstance(y, QTensor):
                 r["bad"] = "output is quantized although activations are not"
